@@ -101,6 +101,26 @@ for _pid, _extra in ROUND9.items():
     _l, _t, _text, _n, _r = CHECKS[_pid]
     CHECKS[_pid] = (_l, _t, _text + _extra, _n, _r)
 
+ROUND11 = {
+    "C01": " Rounds 10-11: plain helpers and lambdas as default values, parameter names exchanged under keyword calls, module-level partial clones with an edited bound argument.",
+    "C02": " Rounds 10-11: pandas timestamps as results, exception classes that share their name with a class of another module.",
+    "C03": " Rounds 10-11: a plug-in module filling a tracked list in place (imported first or last), memento functions defined twice with the old name kept (eight hash seeds).",
+    "C04": " Rounds 10-11: refused calls in front of families, keys computed by four threads at once.",
+    "C06": " Rounds 10-11: reads with an earlier memento in the enumeration; frames with cells of very uneven size under many sampling states; booked sizes must not be negative.",
+    "C10": " Rounds 10-11: list arguments that the caller changes in place after the call.",
+    "C12": " Rounds 10-11: the callee's module moved into a package with the old module kept as a re-export.",
+    "C13": " Rounds 10-11: re-bindings from an opaque to a describable value of the same type, in-place changes of opaque containers, helper names bound to functions of another package.",
+    "C14": " Rounds 10-11: four-node graphs with the root in one package and the others in another.",
+    "C15": " Rounds 10-11: functions with **opts and elements naming parameters outside the signature.",
+    "C16": " Rounds 10-11: prevented calls that also attach context arguments, in both orders.",
+    "C17": " Rounds 10-11: read-back handles given a merge parent, parents whose latest store is gone, children of a parent whose own store failed.",
+    "C18": " Rounds 10-11: dumps of the repository / environment objects as they were built from files and templates.",
+    "C19": " Rounds 10-11: one configuration dictionary used with and without an explicit override; on-disk partition results under a read-only cluster.",
+}
+for _pid, _extra in ROUND11.items():
+    _l, _t, _text, _n, _r = CHECKS[_pid]
+    CHECKS[_pid] = (_l, _t, _text + _extra, _n, _r)
+
 NOT_BUILT = "check not built yet in this round (design in DESIGN.md §4); will be claimed once its monitor exists"
 
 
